@@ -41,6 +41,10 @@ def fam_many(seed, n):
 def fam_backlog(seed, n):
     return [scen.backlog_script(seed, i) for i in range(n)]
 
+@family("hostile")
+def fam_hostile(seed, n):
+    return [scen.hostile_script(seed, i) for i in range(n)]
+
 @family("kf")
 def fam_kf(seed, n):
     return [scen.kf_d4(seed), scen.kf_d6(seed), scen.kf_d1b(seed), scen.kf_d14(seed), scen.kf_d6b(seed), scen.kf_d5(seed)]
